@@ -1313,6 +1313,9 @@ Hread(int32 access_id, int32 length, void *data)
     /* if read length exceeds length of elt, read till end of elt */
     if (length == 0 || length + access_rec->posn > data_len)
         length = data_len - access_rec->posn;
+    /* Hseek allows a position beyond the end of an appendable element: nothing to read there */
+    if (length < 0)
+        length = 0;
 
     /* read in data */
     if (HP_read(file_rec, data, length) == FAIL)
